@@ -39,9 +39,9 @@ SER_REWRITES = [
     {'rule': 'R1', 'find': 'Ok(data)', 'replace': 'proof { lemma_tail_end(ops@, ops0, n); } Ok(data)'},
     # R7 + R1: ghost bookkeeping (segmentation witnesses) declared next to the sink
     {'rule': 'R7', 'find': 'let mut data = Vec::new();',
-     'replace': 'let mut ops = ops_in; let mut data = Out::new(); let ghost ops0 = ops@; proof { lemma_tail_start(ops0); lemma_reads_start(ops0); } let ghost mut n: int = 0; '
+     'replace': 'hide(group_k); hide(arity_k); hide(pre_k); hide(expected_k); hide(is_relational_k); hide(rel_relational_k); hide(new_last_k); let mut ops = ops_in; let mut data = Out::new(); let ghost ops0 = ops@; proof { lemma_tail_start(ops0); lemma_reads_start(ops0); } let ghost mut n: int = 0; '
                 'let ghost mut cuts: Seq<int> = seq![0int]; let ghost mut lasts: Seq<Point> = seq![origin()];'},
-    {'rule': 'R1', 'find': 'let mut advance = 1;', 'replace': 'let mut advance = 1; let ghost s0 = f.st(); proof { lemma_literals(); lemma_tail_idx(ops@, ops0, n); }'},
+    {'rule': 'R1', 'find': 'let mut advance = 1;', 'replace': 'let mut advance = 1; let ghost s0 = f.st(); proof { lemma_tail_idx(ops@, ops0, n); }'},
     {'rule': 'R1', 'find': 'ops = &ops[advance..];',
      'replace': 'proof { lemma_tail(ops@, ops0, n, advance as int); let rec = f.st().recs.last(); let cnt = row_count(rec, lasts.last());\n'
                 ' assert(%s ==> advance == cnt); //@L window_advance\n'
